@@ -50,6 +50,11 @@ def main():
     out = os.path.join(VERIF, "seeded", name)
     wt = f"/tmp/sv-{name}-{os.getpid()}"
     meta = {"id": name, "property": a.prop, "source": "independent sub-agent given only the property text and a scratch worktree", "ran": []}
+    prev = {}
+    try:
+        prev = json.load(open(os.path.join(out, "meta.json")))
+    except Exception:
+        pass
     try:
         meta["agent_notes"] = json.load(open(notes))
     except Exception as e:
@@ -77,6 +82,11 @@ def main():
                 f = re.search(r"(\d+) failed", ot)
                 meta["tests_with_change"] = {"passed": int(m.group(1)) if m else None, "failed": int(f.group(1)) if f else 0, "summary": ot.strip().splitlines()[-1][-200:], "wall_s": round(time.time() - t0)}
                 meta["ran"].append("baseline pytest command with change")
+            if a.skip_tests and prev.get("tests_with_change"):
+                meta["tests_with_change"] = prev["tests_with_change"]  # from the earlier full evaluation of the same patch
+                meta["ran"].append("baseline pytest command with change (earlier evaluation of the same patch)")
+            if prev.get("checks"):
+                meta["history"] = prev.get("history", []) + [{"checks": prev["checks"], "detected_by": prev.get("detected_by")}]
             meta["checks"] = {}
             for c in checks:
                 t0 = time.time()
@@ -85,7 +95,7 @@ def main():
                 meta["checks"][c] = {"tier": a.tier, "exit": rcc, "wall_s": round(time.time() - t0), "first_lines": [l[:400] for l in lines[:6]]}
                 meta["ran"].append(f"run.py {c} --tier {a.tier} with VERIF_REPO=<scratch worktree with the change>")
             meta["detected_by"] = [c for c, r in meta["checks"].items() if r["exit"] == 1]
-        ok = meta.get("demo_without_change", {}).get("exit") == 0 and meta.get("demo_with_change", {}).get("exit", 0) != 0 and (a.skip_tests or (meta.get("tests_with_change", {}).get("passed") == 176 and meta["tests_with_change"]["failed"] == 0))
+        ok = meta.get("demo_without_change", {}).get("exit") == 0 and meta.get("demo_with_change", {}).get("exit", 0) != 0 and ((meta.get("tests_with_change") or {}).get("passed") == 176 and meta["tests_with_change"]["failed"] == 0)
         meta["confirmed"] = bool(ok)
         os.makedirs(out, exist_ok=True)
         shutil.copy(diff, os.path.join(out, "patch.diff"))
